@@ -46,8 +46,8 @@ class C07(Check):
     lean_targets = ["drv_c07"]
     driver = "drv_c07"
     theorems = ["Pox.C07.sites_agree", "Pox.C07.sites_anchored", "Pox.C07.calllater_once", "Pox.C07.calllater_order",
-                "Pox.C07.sync_excludes", "Pox.C07.sync_mutual", "Pox.C07.schedule_atmost1", "Pox.C07.schedule_wake_kept",
-                "Pox.C07.wake_noticed", "Pox.C07.hub_mode", "Pox.C07.lock_excl", "Pox.C07.lock_handoff",
+                "Pox.C07.sync_excludes", "Pox.C07.sync_mutual", "Pox.C07.schedule_atmost1", "Pox.C07.schedule_self_twice", "Pox.C07.schedule_wake_kept",
+                "Pox.C07.wake_noticed", "Pox.C07.hub_mode", "Pox.C07.lock_excl", "Pox.C07.lock_excl_multi", "Pox.C07.lock_handoff",
                 "Pox.C07.lock_excl_needs_discipline"]
     anchors = []             # computed in setup(): the bodies of the functions listed in harness/translate/sites.py
     design_ref = "DESIGN.md §5 C07, Appendix B"
@@ -113,6 +113,7 @@ class C07(Check):
             d = common.Driver(self.driver)
             resp = d.ask({"op": "table"}); d.close()
             rows = {}
+            self._table_raw = resp["table"]
             model = {r["fn"]: r["items"] for r in resp["table"]}
             for rel, qual, sts, span in self.extract:
                 items = model.get(sites_tr.key(rel, qual))
@@ -207,21 +208,20 @@ class C07(Check):
         evidence says which scenarios were completed)."""
         CL, SE, SX = {"o": "callLater"}, {"o": "syncEnter"}, {"o": "syncExit"}
         S0 = {"o": "schedule", "t": 0}
-        scen = [
-            (False, [], [[CL], [CL]]),
-            (True, [], [[CL], [CL]]),
-            (False, [[0]], [[S0], [S0]]),
-            (True, [[1]], [[S0, S0]]),
-            (True, [[0]], [[SE, SX], [S0]]),
-            (False, [[0]], [[SE, CL, SX]]),
-            (True, [], [[CL, CL]]),
-            (True, [[0]], [[S0], [S0]]),
-            (False, [[0]], [[SE, SX], [S0]]),
-            (False, [], [[CL], [SE, SX]]),
-            (True, [], [[CL], [SE, SX]]),
-            (True, [[0]], [[CL], [S0], [SE, SX]]),
+        U01 = [[3, 0], []]                       # user task 0 wakes user task 1 from inside its slice (direct branch)
+        bases = [
+            ([], [[CL], [CL]]),
+            ([[0]], [[S0], [S0]]),
+            ([[1]], [[S0, S0]]),
+            ([[0]], [[SE, SX], [S0]]),
+            ([[0]], [[SE, CL, SX]]),
+            ([], [[CL, CL]]),
+            ([], [[CL], [SE, SX]]),
+            (U01, [[S0], [{"o": "schedule", "t": 1}]]),
+            ([[0]], [[CL], [S0], [SE, SX]]),
         ]
-        cap2 = 2500
+        scen = [(threaded, users, progs) for users, progs in bases for threaded in (False, True)]
+        cap2 = 2200
         self.exhaustive_report = []
         for threaded, users, progs in scen:
             base = {"kind": "threads", "threaded": threaded, "users": users, "progs": progs}
@@ -831,8 +831,28 @@ class C07(Check):
                 for j in range(len(p)):
                     c = json.loads(json.dumps(case)); del c["progs"][i][j]; yield c
 
+    def site_report(self):
+        """every statement the translator lists, by what it is in the model: the evidence names the unmodelled ones"""
+        try:
+            self.table()
+        except Exception:
+            return None
+        by, unmodelled, other = {}, [], {"lk": [], "pg": []}
+        lines = {(sites_tr.key(rel, qual), i): ln for rel, qual, sts, span in self.extract for i, (t, ln) in enumerate(sts)}
+        for r in self._table_raw:
+            for i, it in enumerate(r["items"]):
+                by[it["tag"]] = by.get(it["tag"], 0) + 1
+                where = "%s:%s  %s" % (r["fn"], lines.get((r["fn"], i), "?"), it["text"])
+                if it["tag"] == "nm": unmodelled.append(where)
+                elif it["tag"] in other: other[it["tag"]].append(where)
+        return {"statements_listed": sum(by.values()), "by_tag": by,
+                "legend": {"act": "atomic action of Model/Handoff.lean", "call": "control transfer to another listed function / task / callback",
+                           "loc": "thread-local, immutable configuration, or object not yet shared", "lk": "cooperative Lock, modelled in Model/CoopLock.lean",
+                           "pg": "pipe pinger, modelled as byte counters and compared with the real PipePinger", "nm": "NOT modelled (listed below)"},
+                "not_modelled": unmodelled, "modelled_in_CoopLock": other["lk"], "modelled_as_byte_counter": other["pg"]}
+
     def extra_evidence(self):
-        return {"technique": self.technique, "level_text": self.level_text, "level_note": self.level_note,
+        return {"sites": self.site_report(), "technique": self.technique, "level_text": self.level_text, "level_note": self.level_note,
                 "bounded_exhaustive": getattr(self, "exhaustive_report", None),
                 "forced_scheduler": {"runs": self.stats["runs"], "steps": self.stats["steps"],
                                      "quiescent": self.stats["quiescent"], "deadlock": self.stats["deadlock"]}}
